@@ -136,7 +136,7 @@ def rowFirst (e : PlayEnv) (p : PlaySt) (fx : Fx) : PlaySt :=
            endPoint := endAfter e p.ord p.row p.endPoint,
            time := p.time + tick (fxBpm fx p.bpm), ctime := p.ctime + tick (fxBpm fx p.bpm) }
 
-theorem render_firstG (e : PlayEnv) (p : PlaySt) (fx : Fx) (hfx : e.fxAt p.ord p.row = fx)
+theorem render_firstG (e : PlayEnv) (p : PlaySt) (fx : Fx) (hfx : e.fxAt p.ord p.row = fx) (hw : fx.WF)
     (hfr : p.frame = 0) (hd : p.delay = 0)
     (hne : ¬ (p.ord = e.si.endOrd ∧ p.row = e.si.endRow ∧ p.endPoint = 0)) :
     e.render p = rowFirst e p fx := by
@@ -147,7 +147,9 @@ theorem render_firstG (e : PlayEnv) (p : PlaySt) (fx : Fx) (hfx : e.fxAt p.ord p
       simp [h1, this]
     · simp [h1]
   simp only [PlayEnv.render, hfr, if_true, PlayEnv.newRow, hce, hfx, rowFirst]
-  cases fx <;> simp [readFx, fxSpeed, fxBpm, Fx.delayOf, fxPbreak, fxJump, hd]
+  cases fx
+  case rowdelay x => exact absurd hw (by simp [Fx.WF])
+  all_goals (simp [readFx, fxSpeed, fxBpm, Fx.delayOf, fxPbreak, fxJump, hd])
   split <;> simp [hd]
 
 theorem recOf_rowFirst (e : PlayEnv) (p : PlaySt) (fx : Fx) :
@@ -166,7 +168,7 @@ theorem runN_rowG (e : PlayEnv) (p : PlaySt) (fx : Fx) (hfx : e.fxAt p.ord p.row
                      delay := fx.delayOf, t0 := p.time }] ∧
       ticks F = rowFrames fx p.speed * tick (fxBpm fx p.bpm) ∧
       e.runN (rowFrames fx p.speed) p = (e.nextRow (rowEndG e p fx)).map fun p' => (F, p') := by
-  have hr0 := render_firstG e p fx hfx hfr hd hne
+  have hr0 := render_firstG e p fx hfx hw hfr hd hne
   have hN : 1 ≤ rowFrames fx p.speed := by
     have := fxSpeed_pos fx p.speed hs hw
     simp only [rowFrames]
@@ -183,6 +185,8 @@ theorem rowEndG_fields (e : PlayEnv) (p : PlaySt) (fx : Fx) :
     (rowEndG e p fx).endPoint = endAfter e p.ord p.row p.endPoint ∧
     (rowEndG e p fx).time = p.time + tick (fxBpm fx p.bpm) + (rowFrames fx p.speed - 1) * tick (fxBpm fx p.bpm) :=
   ⟨rfl, rfl, rfl, rfl, rfl, rfl, rfl, rfl, rfl⟩
+
+theorem rowEndG_rowdelay (e : PlayEnv) (p : PlaySt) (fx : Fx) : (rowEndG e p fx).rowdelay = p.rowdelay := rfl
 
 theorem rowEndG_time (e : PlayEnv) (p : PlaySt) (fx : Fx) (hw : fx.WF) (hs : 1 ≤ p.speed) :
     (rowEndG e p fx).time = p.time + rowFrames fx p.speed * tick (fxBpm fx p.bpm) := by
@@ -210,18 +214,19 @@ theorem runN_rowsG (e : PlayEnv) (ord : Nat) : ∀ (fxs : List Fx) (rest : List 
     (∀ fx ∈ fxs, fx.isJump = false ∧ fx.WF) →
     (ord = e.si.endOrd → row ≤ e.si.endRow → e.si.endRow < row + fxs.length → p.endPoint ≠ 0) →
     p.ord = ord → p.row = row → p.frame = 0 → p.delay = 0 → p.pbreak = false → p.loopCount = 0 → 1 ≤ p.speed →
+    p.rowdelay = 0 →
     ∃ F p', e.runN F.length p = some (F, p') ∧ rowRecs F = recSeq ord row fxs p.speed p.bpm p.time ∧
       ticks F = rowsTime fxs p.speed p.bpm ∧
       p'.ord = ord ∧ p'.row = row + fxs.length ∧ p'.frame = 0 ∧ p'.delay = 0 ∧ p'.pbreak = false ∧
       p'.loopCount = 0 ∧ p'.speed = rowsSpeed fxs p.speed ∧ p'.bpm = rowsBpm fxs p.bpm ∧
       p'.time = p.time + rowsTime fxs p.speed p.bpm ∧
-      p'.endPoint = p.endPoint - endHit e ord row fxs.length ∧ p'.jump = p.jump := by
+      p'.endPoint = p.endPoint - endHit e ord row fxs.length ∧ p'.jump = p.jump ∧ p'.rowdelay = 0 := by
   intro fxs
   induction fxs with
   | nil =>
-    intro rest row p _ _ _ _ ho hr hf hd hp hl hs
+    intro rest row p _ _ _ _ ho hr hf hd hp hl hs hrd
     refine ⟨[], p, by simp [PlayEnv.runN], by simp [rowRecs, recSeq], by simp [ticks, rowsTime],
-      ho, by simp [hr], hf, hd, hp, hl, by simp [rowsSpeed], by simp [rowsBpm], by simp [rowsTime], ?_, rfl⟩
+      ho, by simp [hr], hf, hd, hp, hl, by simp [rowsSpeed], by simp [rowsBpm], by simp [rowsTime], ?_, rfl, hrd⟩
     have : endHit e ord row ([] : List Fx).length = 0 := by
       simp only [endHit, List.length_nil, Nat.add_zero]
       split
@@ -229,7 +234,8 @@ theorem runN_rowsG (e : PlayEnv) (ord : Nat) : ∀ (fxs : List Fx) (rest : List 
       · rfl
     rw [this]; omega
   | cons fx fxs ih =>
-    intro rest row p hdrop hrest hfx hend ho hr hf hd hp hl hs
+    intro rest row p hdrop hrest hfx hend ho hr hf hd hp hl hs hrd
+    have grd : (rowEndG e p fx).rowdelay = 0 := by rw [rowEndG_rowdelay]; exact hrd
     have hfx0 := hfx fx (by simp)
     obtain ⟨hget, hdrop', hlt⟩ := getD_of_drop _ row fx (fxs ++ rest) Fx.none (by simpa using hdrop)
     have hfxat : e.fxAt p.ord p.row = fx := by rw [ho, hr]; exact hget
@@ -249,12 +255,12 @@ theorem runN_rowsG (e : PlayEnv) (ord : Nat) : ∀ (fxs : List Fx) (rest : List 
       have h1 : ((e.m.rowsOf (e.m.patOf ord)).drop (row + 1)).length = (fxs ++ rest).length := by rw [hdrop']
       have h2 : 0 < rest.length := by cases rest with | nil => exact absurd rfl hrest | cons _ _ => simp
       simp at h1; omega
-    obtain ⟨p2, hp2⟩ : ∃ p2 : PlaySt, p2 = { rowEndG e p fx with frame := 0, delay := 0, row := row + 1 } := ⟨_, rfl⟩
+    obtain ⟨p2, hp2⟩ : ∃ p2 : PlaySt, p2 = { rowEndG e p fx with frame := 0, delay := 0, row := row + 1, rowdelaySet := false } := ⟨_, rfl⟩
     have hnr : e.nextRow (rowEndG e p fx) = some p2 := by
       have hge : ¬ (row + 1 ≥ (e.m.rowsOf (e.m.patOf ord)).length) := by omega
       have hge' : ¬ (row + 1 ≥ (e.m.rowsOf (e.m.patOf (rowEndG e p fx).ord)).length) := by
         rw [g1, ho]; exact hge
-      simp only [PlayEnv.nextRow, g5, hpb, Bool.false_eq_true, if_false, hge', hp2, g2, hr]
+      simp only [PlayEnv.nextRow, g5, hpb, Bool.false_eq_true, if_false, grd, if_true, hge', hp2, g2, hr]
     rw [hnr] at hrun1
     simp only [Option.map_some] at hrun1
     have hp2o : p2.ord = ord := by rw [hp2]; show (rowEndG e p fx).ord = ord; rw [g1, ho]
@@ -273,10 +279,10 @@ theorem runN_rowsG (e : PlayEnv) (ord : Nat) : ∀ (fxs : List Fx) (rest : List 
       have : ¬ (ord = e.si.endOrd ∧ row = e.si.endRow) := by intro h; omega
       simp only [this, if_false]
       exact hend h1 (by omega) (by simp; omega)
-    obtain ⟨F2, p', hrun2, htr2, htk2, h1, h2, h3, h4, h5, h6, h7, h8, h9, h10, h11⟩ := ih rest (row + 1) p2 hdrop' hrest
+    obtain ⟨F2, p', hrun2, htr2, htk2, h1, h2, h3, h4, h5, h6, h7, h8, h9, h10, h11, h12⟩ := ih rest (row + 1) p2 hdrop' hrest
       (fun f hf => hfx f (by simp [hf])) hend2
-      hp2o (by rw [hp2]) (by rw [hp2]) (by rw [hp2]) hp2pb hp2l hs2
-    refine ⟨F1 ++ F2, p', ?_, ?_, ?_, h1, ?_, h3, h4, h5, h6, ?_, ?_, ?_, ?_, ?_⟩
+      hp2o (by rw [hp2]) (by rw [hp2]) (by rw [hp2]) hp2pb hp2l hs2 (by rw [hp2]; exact grd)
+    refine ⟨F1 ++ F2, p', ?_, ?_, ?_, h1, ?_, h3, h4, h5, h6, ?_, ?_, ?_, ?_, ?_, h12⟩
     · rw [List.length_append, hlen1]
       exact runN_add e (rowFrames fx p.speed) p F1 p2 F2.length F2 p' hrun1 hrun2
     · rw [rowRecs_append, htr1, htr2, ho, hr, hp2s, hp2b, hp2t]; simp [recSeq]
@@ -348,17 +354,18 @@ theorem play_pattern (e : PlayEnv) (ord : Nat) (pre : List Fx) (last : Fx) (post
     (hlast : last.isJump = true ∨ post = [])
     (hend : ord = e.si.endOrd → row ≤ e.si.endRow → e.si.endRow < row + (pre.length + 1) → p.endPoint ≠ 0)
     (ho : p.ord = ord) (hr : p.row = row) (hf : p.frame = 0) (hd : p.delay = 0) (hp : p.pbreak = false)
-    (hj : p.jump = none) (hl : p.loopCount = 0) (hs : 1 ≤ p.speed) :
+    (hj : p.jump = none) (hl : p.loopCount = 0) (hs : 1 ≤ p.speed) (hrd : p.rowdelay = 0) :
     ∃ F sP, e.runN F.length p = (e.enter sP (nordAfter ord last)).map (fun p' => (F, p')) ∧
       rowRecs F = recSeq ord row (pre ++ [last]) p.speed p.bpm p.time ∧
       ticks F = rowsTime (pre ++ [last]) p.speed p.bpm ∧
       sP.delay = 0 ∧ sP.pbreak = false ∧ sP.jump = none ∧ sP.loopCount = 0 ∧
       sP.speed = rowsSpeed (pre ++ [last]) p.speed ∧ sP.bpm = rowsBpm (pre ++ [last]) p.bpm ∧
       sP.time = p.time + rowsTime (pre ++ [last]) p.speed p.bpm ∧
-      sP.endPoint = p.endPoint - endHit e ord row (pre.length + 1) := by
-  obtain ⟨F1, p1, hrun1, hrec1, htk1, a1, a2, a3, a4, a5, a6, a7, a8, a9, a10, a11⟩ :=
+      sP.endPoint = p.endPoint - endHit e ord row (pre.length + 1) ∧ sP.rowdelay = 0 := by
+  obtain ⟨F1, p1, hrun1, hrec1, htk1, a1, a2, a3, a4, a5, a6, a7, a8, a9, a10, a11, a12⟩ :=
     runN_rowsG e ord pre (last :: post) row p hrows (by simp) hpre
-      (fun h1 h2 h3 => hend h1 h2 (by omega)) ho hr hf hd hp hl hs
+      (fun h1 h2 h3 => hend h1 h2 (by omega)) ho hr hf hd hp hl hs hrd
+  have grd : (rowEndG e p1 last).rowdelay = 0 := by rw [rowEndG_rowdelay]; exact a12
   have hdrop2 : (e.m.rowsOf (e.m.patOf ord)).drop (row + pre.length) = last :: post := by
     have := congrArg (List.drop pre.length) hrows
     rw [List.drop_drop, List.drop_left] at this
@@ -381,7 +388,7 @@ theorem play_pattern (e : PlayEnv) (ord : Nat) (pre : List Fx) (last : Fx) (post
   obtain ⟨g1, g2, g3, g4, g5, g6, g7, g8, _⟩ := rowEndG_fields e p1 last
   have g9 := rowEndG_time e p1 last hlw hs1
   -- what `next_row` does
-  obtain ⟨sP, hsP⟩ : ∃ sP : PlaySt, sP = { rowEndG e p1 last with frame := 0, delay := 0, pbreak := false, jump := none, row := if last.isJump then p1.row else p1.row + 1 } := ⟨_, rfl⟩
+  obtain ⟨sP, hsP⟩ : ∃ sP : PlaySt, sP = { rowEndG e p1 last with frame := 0, delay := 0, pbreak := false, jump := none, row := if last.isJump then p1.row else p1.row + 1, rowdelaySet := if last.isJump then (rowEndG e p1 last).rowdelaySet else false } := ⟨_, rfl⟩
   have hnr : e.nextRow (rowEndG e p1 last) = e.enter sP (nordAfter ord last) := by
     cases hlj : last.isJump with
     | true =>
@@ -410,16 +417,16 @@ theorem play_pattern (e : PlayEnv) (ord : Nat) (pre : List Fx) (last : Fx) (post
         simp at this; omega
       have hge : p1.row + 1 ≥ (e.m.rowsOf (e.m.patOf ord)).length := by
         rw [a2, hlenrows]; omega
-      simp only [PlayEnv.nextRow, hpb, Bool.false_eq_true, if_false, hna, g1, g2, a1, hge, if_true]
+      simp only [PlayEnv.nextRow, hpb, Bool.false_eq_true, if_false, grd, hna, g1, g2, a1, hge, if_true]
       rw [hsP]
       simp only [hlj, Bool.false_eq_true, if_false, g2]
       refine congrArg (fun s => e.enter s (ord + 1)) ?_
       simp only [PlaySt.mk.injEq, true_and, and_true]
-      exact ⟨by rw [g1, a1], hjj⟩
+      exact ⟨by rw [g1, a1], hjj, grd.symm⟩
   rw [hnr] at hrun2
   have hrunAll := runN_add' e F1.length p F1 p1 (rowFrames last p1.speed) hrun1
   rw [hrun2, Option.map_map] at hrunAll
-  refine ⟨F1 ++ F2, sP, ?_, ?_, ?_, ?_, ?_, ?_, ?_, ?_, ?_, ?_, ?_⟩
+  refine ⟨F1 ++ F2, sP, ?_, ?_, ?_, ?_, ?_, ?_, ?_, ?_, ?_, ?_, ?_, by rw [hsP]; exact grd⟩
   · rw [List.length_append, hlen2, hrunAll]; rfl
   · rw [rowRecs_append, hrec1, hrec2, recSeq_append, a1, a2, a7, a8, a9]; simp [recSeq]
   · rw [ticks_append, htk1, htk2, rowsTime_append, a7, a8]; simp [rowsTime]
@@ -465,17 +472,17 @@ theorem rowsDone_single (ord row : Nat) (fx : Fx) (st : ScanSt) (hw : fx.WF)
   · rw [visitStep_ctl]
   · rw [visitStep_info]
   · rw [visitStep_startTime]
-  · rw [visitStep_cnt, cntInc_length]
-  · intro o; rw [visitStep_cnt, cntInc_row_length]
+  · rw [visitStep_cnt _ _ _ _ hw, cntInc_length]
+  · intro o; rw [visitStep_cnt _ _ _ _ hw, cntInc_row_length]
   · intro o r h
     simp only [List.length_cons, List.length_nil] at h
-    rw [visitStep_cnt, cntAt_cntInc_ne]
+    rw [visitStep_cnt _ _ _ _ hw, cntAt_cntInc_ne]
     omega
   · intro r h1 h2
     simp only [List.length_cons, List.length_nil] at h2
     have : r = row := by omega
     subst this
-    rw [visitStep_cnt, cntAt_cntInc_eq _ _ _ hlen hrl, hf0]
+    rw [visitStep_cnt _ _ _ _ hw, cntAt_cntInc_eq _ _ _ hlen hrl, hf0]
   · rw [visitStep_trace]; simp [rowSeq]
   · rw [visitStep_trace_full _ _ _ _ hw]; simp [recSeq]
   · intro _; exact ⟨visitStep_anyValid .., visitStep_osv ..⟩
